@@ -86,7 +86,9 @@ def _hangup_loop(args):
     sock, cred, t_end = args
     n = 0
     big = rig.hdr(rig.T_DEC_REQ, 0, 4 + len(cred)) + rig.dec_req_body(cred)
-    pad = rig.hdr(rig.T_DEC_REQ, 0, 4 + 300000) + rig.dec_req_body(b"MUNGE:" + b"A" * 299990 + b":\0"[:4])
+    import base64 as _b
+    junk = b"MUNGE:" + _b.b64encode(bytes([3, 4, 5, 0, 0]) + bytes(range(256)) * 1900) + b":\0"      # well-formed armor, 500 kB, MAC fails
+    pad = rig.hdr(rig.T_DEC_REQ, 0, 4 + len(junk)) + rig.dec_req_body(junk)
     while time.time() < t_end:
         for raw in (big, pad):
             try:
@@ -131,7 +133,7 @@ def forgery_race(ctx, exe, seconds=6.0, nthreads=2, label="forge"):
         forged = []
         genuine = []
         for (c, m, z) in ((0, 5, 0), (4, 5, 0), (0, 3, 2)):
-            e, st = rig.encode(d.sock, uid=4242, gid=4243, cipher=c, mac=m, zip_=z, ttl=300, data=b"genuine payload " * 3)
+            e, st = rig.encode(d.sock, uid=4242, gid=4243, cipher=c, mac=m, zip_=z, ttl=300, data=b"genuine payload " * 2500)
             if e is None or e["error_num"] != 0:
                 continue
             genuine.append(e["data"])
@@ -150,19 +152,21 @@ def forgery_race(ctx, exe, seconds=6.0, nthreads=2, label="forge"):
                 forged.append(("minted under the MAC subkey %s, mac %d, uid 0" % (nm, m),
                                pyref.mint(b"", mac=m, mac_key=mk, time0=now, ttl=600, uid=0, gid=0, data=b"forged under a guessable key")))
         t_end = time.time() + seconds
-        pool = multiprocessing.Pool(7)
+        pool = multiprocessing.Pool(14)
         try:
-            g = [pool.apply_async(_genuine_loop, ((d.sock, genuine[i % len(genuine)], t_end),)) for i in range(2)]
-            f = [pool.apply_async(_forger_loop, ((d.sock, forged[i::4], t_end),)) for i in range(4)]
+            g = [pool.apply_async(_genuine_loop, ((d.sock, genuine[i % len(genuine)], t_end),)) for i in range(3)]
+            f = [pool.apply_async(_forger_loop, ((d.sock, forged[i::8], t_end),)) for i in range(8)]
             eb, _st = rig.encode(d.sock, uid=4242, gid=4243, cipher=4, mac=5, zip_=0, ttl=300, data=bytes(range(256)) * 800)
-            h = pool.apply_async(_hangup_loop, ((d.sock, eb["data"] if eb and eb["error_num"] == 0 else genuine[0], t_end),))
+            hcred = eb["data"] if eb and eb["error_num"] == 0 else genuine[0]
+            hs = [pool.apply_async(_hangup_loop, ((d.sock, hcred, t_end),)) for _ in range(3)]
             for x in f:
                 n, acc = x.get(timeout=seconds + 60)
                 total += n
                 problems += acc
             for x in g:
                 total += x.get(timeout=seconds + 60)
-            total += h.get(timeout=seconds + 60)
+            for h in hs:
+                total += h.get(timeout=seconds + 60)
         finally:
             pool.terminate()
             pool.join()
